@@ -213,6 +213,11 @@ async fn handle_request(
     .await
     .unwrap_or_else(|e| e.into());
     let Some(tested_addr) = tested_addr_opt else {
+        // No address was selected (no addresses, or no `DialRequest` at all): the client still gets
+        // its `DialResponse` (`E_DIAL_REFUSED`, `E_REQUEST_REJECTED`, `E_INTERNAL_ERROR`).
+        if coder.send(Response::Dial(response)).await.is_ok() {
+            let _ = coder.close().await;
+        }
         return Event {
             all_addrs,
             tested_addr: observed_multiaddr,
